@@ -208,7 +208,7 @@ func genIDs(t *rapid.T, c *Case) {
 func genSlowSteps(t *rapid.T, c *Case) {
 	kind := ""
 	switch k := rapid.IntRange(0, 29).Draw(t, "slowStep"); {
-	case k == 13: // (rapid prefers the ends of a range)
+	case k == 12 || k == 13: // (rapid prefers the ends of a range)
 		kind = "long"
 	case k >= 14 && k <= 19:
 		kind = "short"
@@ -530,10 +530,18 @@ func once(c Case, o *vf.Obs, classify bool) error {
 						o.Class("cancel_inside_blind_step", "cancel_inside_blind_"+sp.Kind)
 						if sp.End.Sub(cancelAt) > promptBound {
 							o.Class("cancel_inside_long_blind_step", "cancel_inside_long_blind_"+sp.Kind)
-							o.ClassIf(allOthersDone(prs, pr, cancelAt), "cancel_inside_long_blind_step_other_pools_done")
+							// the steps a pool goes through before it starts its provider, aggregator and instances
+							startup := sp.Call == 0 && (sp.Kind != "sched" || !pr.pc.PerInstance)
+							o.ClassIf(startup && allOthersDone(prs, pr, cancelAt), "cancel_inside_long_blind_startup_step_other_pools_done")
 						}
 					}
 				}
+			}
+		}
+		for _, pc := range c.Pools {
+			if us := pc.Gun.FactoryDelayUs + pc.Gun.WarmUpDelayUs + pc.SchedDelayUs; us > 0 {
+				o.ClassIf(us < 1000000, "blind_step_delay_short")
+				o.ClassIf(us >= 1000000, "blind_step_delay_long")
 			}
 		}
 		ids := map[string]int{}
